@@ -30,7 +30,15 @@ const (
 	cZero = iota
 	cFF
 	cCounter
+	// cFrame+r (r = 0..7): the 8-byte pattern 10 00 00 00 00 00 00 00 repeated, rotated by r.
+	// Read at an 8-byte aligned file offset, leftover payload of this kind looks like a frame
+	// header with a small plausible length (for the rotation that matches the payload's
+	// alignment in the file, which depends on varint lengths: all 8 are enumerated), the
+	// worst case for stale sectors that a later append runs into.
+	cFrame
 )
+
+var framePattern = [8]byte{0x10, 0, 0, 0, 0, 0, 0, 0}
 
 func payload(n int, content int, salt byte) []byte {
 	b := make([]byte, n)
@@ -42,6 +50,12 @@ func payload(n int, content int, salt byte) []byte {
 	case cCounter:
 		for i := range b {
 			b[i] = byte(i) + salt
+		}
+	default:
+		if content >= cFrame && content < cFrame+8 {
+			for i := range b {
+				b[i] = framePattern[(i+content-cFrame)%8]
+			}
 		}
 	}
 	return b
@@ -77,6 +91,26 @@ var shapes = []shape{
 	// big batches: many unsynced sectors at one crash point (exercise the subset cap)
 	{Name: "a4x1100", Kind: "append", Sizes: []int{1100, 1100, 1100, 1100}, Content: -1, LongOnly: true},
 	{Name: "a6x1100", Kind: "append", Sizes: []int{1100, 1100, 1100, 1100, 1100, 1100}, Content: -1, LongOnly: true},
+	// records spanning more than one 4096-byte page (second-generation base histories, gen2.go)
+	{Name: "a5kz", Kind: "append", Sizes: []int{5120}, Content: cZero, LongOnly: true},
+	{Name: "a5kff", Kind: "append", Sizes: []int{5120}, Content: cFF, LongOnly: true},
+	{Name: "a5kcn", Kind: "append", Sizes: []int{5120}, Content: cCounter, LongOnly: true},
+	{Name: "a9kz", Kind: "append", Sizes: []int{9216}, Content: cZero, LongOnly: true},
+	{Name: "a9kff", Kind: "append", Sizes: []int{9216}, Content: cFF, LongOnly: true},
+	{Name: "a9kcn", Kind: "append", Sizes: []int{9216}, Content: cCounter, LongOnly: true},
+	// one Save = a multi-page entry followed by small ones (whole stale frames behind the gap)
+	{Name: "a5k789", Kind: "append", Sizes: []int{5120, 7, 8, 9}, Content: cCounter, LongOnly: true},
+	// step of about 265 bytes: moves the append frontier of a second generation finely
+	{Name: "a200", Kind: "append", Sizes: []int{200}, Content: -1, LongOnly: true},
+}
+
+func init() {
+	// frame-like payloads, one shape per rotation: a5kf0..a5kf7, a9kf0..a9kf7
+	for r := 0; r < 8; r++ {
+		shapes = append(shapes,
+			shape{Name: fmt.Sprintf("a5kf%d", r), Kind: "append", Sizes: []int{5120}, Content: cFrame + r, LongOnly: true},
+			shape{Name: fmt.Sprintf("a9kf%d", r), Kind: "append", Sizes: []int{9216}, Content: cFrame + r, LongOnly: true})
+	}
 }
 
 func shapeByName(n string) (int, bool) {
@@ -309,83 +343,9 @@ func runHistory(root string, seg int64, ops []int) (*runner, error) {
 	r.ss = snap.New(nop, r.snapDir)
 	r.opDone("ret:Create", true)
 	for i, si := range ops {
-		s := &shapes[si]
-		if !r.m.applicable(s) {
-			r.w.Close()
-			return nil, errInapplicable
+		if err := r.doOp(i, si); err != nil {
+			return nil, err
 		}
-		r.rec.curOp = i
-		st := r.m.plan(si)
-		must := r.m.mustSync(&st)
-		switch {
-		case st.Reopen:
-			if err := r.w.Close(); err != nil {
-				return nil, &apiError{"Close", r.rec.curOp, err}
-			}
-			r.m.ackedRecs = len(r.m.recs)
-			r.rec.observe("ret:Close", nil)
-			ws := walpb.Snapshot{Index: r.m.snapIdx, Term: r.m.snapTerm}
-			if r.m.walSnapAck != r.m.snapIdx {
-				ws = walpb.Snapshot{}
-			}
-			w, err := wal.Open(nop, r.walDir, ws)
-			if err != nil {
-				return nil, &apiError{"Open", r.rec.curOp, err}
-			}
-			md, hs, ents, err := w.ReadAll()
-			if err != nil {
-				w.Close()
-				return nil, &apiError{"ReadAll", r.rec.curOp, err}
-			}
-			r.w = w
-			// self-check of the uncrashed run
-			exp := r.m.at(len(r.m.recs), ws.Index, startSegOf(dirWalNames(r.walDir), ws.Index))
-			if !bytes.Equal(md, metadata) || !sameEnts(ents, exp.ents) || hs != exp.st {
-				r.selfErr = fmt.Sprintf("uncrashed reopen after op %d read back %s, expected %s", i, descr(hs, ents), descr(exp.st, exp.ents))
-			}
-			r.m.wstate = raftpb.HardState{}
-			must = true
-		case st.Snap != nil:
-			if err := r.ss.SaveSnap(*st.Snap); err != nil {
-				return nil, &apiError{"SaveSnap", r.rec.curOp, err}
-			}
-			b, _ := st.Snap.Marshal()
-			r.m.snaps[st.Snap.Metadata.Index] = b
-			r.m.ackedSnap = st.Snap.Metadata.Index
-			r.rec.observe("ret:SaveSnap", nil)
-			cs := st.Snap.Metadata.ConfState
-			if err := r.w.SaveSnapshot(walpb.Snapshot{Index: st.Snap.Metadata.Index, Term: st.Snap.Metadata.Term, ConfState: &cs}); err != nil {
-				return nil, &apiError{"SaveSnapshot", r.rec.curOp, err}
-			}
-			r.m.record(i, &st)
-			r.m.ackedRecs = len(r.m.recs)
-			r.m.walSnapAck = st.Snap.Metadata.Index
-			r.rec.observe("ret:SaveSnapshot", nil)
-			if err := r.w.ReleaseLockTo(st.Snap.Metadata.Index); err != nil {
-				return nil, &apiError{"ReleaseLockTo", r.rec.curOp, err}
-			}
-			must = true
-		default:
-			if err := r.w.Save(st.St, st.Ents); err != nil {
-				return nil, &apiError{"Save", r.rec.curOp, err}
-			}
-			if !isEmptyHS(st.St) {
-				r.m.prevHS = st.St
-				r.m.wstate = st.St
-			}
-		}
-		if st.Snap == nil {
-			r.m.record(i, &st)
-		}
-		// did the call cut a new segment?
-		if n := countWalFiles(r.walDir) - 1; n > r.m.seg {
-			r.m.seg = n
-			if !isEmptyHS(r.m.wstate) {
-				r.m.recs = append(r.m.recs, lrec{Kind: rState, St: r.m.wstate, Op: i, Seg: n, Hdr: true})
-			}
-		}
-		r.steps = append(r.steps, st)
-		r.opDone("ret:"+s.Name, must)
 	}
 	// final: Close is an operation of its own (acknowledges everything)
 	r.rec.curOp = len(ops)
@@ -395,6 +355,89 @@ func runHistory(root string, seg int64, ops []int) (*runner, error) {
 	r.opDone("ret:Close(final)", true)
 	r.rec.observe("end", nil)
 	return r, nil
+}
+
+// doOp plans operation i (shape si) against the abstract state, performs the real call(s),
+// extends the logical record stream and observes the return.
+func (r *runner) doOp(i, si int) error {
+	s := &shapes[si]
+	if !r.m.applicable(s) {
+		r.w.Close()
+		return errInapplicable
+	}
+	r.rec.curOp = i
+	st := r.m.plan(si)
+	must := r.m.mustSync(&st)
+	switch {
+	case st.Reopen:
+		if err := r.w.Close(); err != nil {
+			return &apiError{"Close", r.rec.curOp, err}
+		}
+		r.m.ackedRecs = len(r.m.recs)
+		r.rec.observe("ret:Close", nil)
+		ws := walpb.Snapshot{Index: r.m.snapIdx, Term: r.m.snapTerm}
+		if r.m.walSnapAck != r.m.snapIdx {
+			ws = walpb.Snapshot{}
+		}
+		w, err := wal.Open(nop, r.walDir, ws)
+		if err != nil {
+			return &apiError{"Open", r.rec.curOp, err}
+		}
+		md, hs, ents, err := w.ReadAll()
+		if err != nil {
+			w.Close()
+			return &apiError{"ReadAll", r.rec.curOp, err}
+		}
+		r.w = w
+		// self-check of the uncrashed run
+		exp := r.m.at(len(r.m.recs), ws.Index, startSegOf(dirWalNames(r.walDir), ws.Index))
+		if !bytes.Equal(md, metadata) || !sameEnts(ents, exp.ents) || hs != exp.st {
+			r.selfErr = fmt.Sprintf("uncrashed reopen after op %d read back %s, expected %s", i, descr(hs, ents), descr(exp.st, exp.ents))
+		}
+		r.m.wstate = raftpb.HardState{}
+		must = true
+	case st.Snap != nil:
+		if err := r.ss.SaveSnap(*st.Snap); err != nil {
+			return &apiError{"SaveSnap", r.rec.curOp, err}
+		}
+		b, _ := st.Snap.Marshal()
+		r.m.snaps[st.Snap.Metadata.Index] = b
+		r.m.ackedSnap = st.Snap.Metadata.Index
+		r.rec.observe("ret:SaveSnap", nil)
+		cs := st.Snap.Metadata.ConfState
+		if err := r.w.SaveSnapshot(walpb.Snapshot{Index: st.Snap.Metadata.Index, Term: st.Snap.Metadata.Term, ConfState: &cs}); err != nil {
+			return &apiError{"SaveSnapshot", r.rec.curOp, err}
+		}
+		r.m.record(i, &st)
+		r.m.ackedRecs = len(r.m.recs)
+		r.m.walSnapAck = st.Snap.Metadata.Index
+		r.rec.observe("ret:SaveSnapshot", nil)
+		if err := r.w.ReleaseLockTo(st.Snap.Metadata.Index); err != nil {
+			return &apiError{"ReleaseLockTo", r.rec.curOp, err}
+		}
+		must = true
+	default:
+		if err := r.w.Save(st.St, st.Ents); err != nil {
+			return &apiError{"Save", r.rec.curOp, err}
+		}
+		if !isEmptyHS(st.St) {
+			r.m.prevHS = st.St
+			r.m.wstate = st.St
+		}
+	}
+	if st.Snap == nil {
+		r.m.record(i, &st)
+	}
+	// did the call cut a new segment?
+	if n := countWalFiles(r.walDir) - 1; n > r.m.seg {
+		r.m.seg = n
+		if !isEmptyHS(r.m.wstate) {
+			r.m.recs = append(r.m.recs, lrec{Kind: rState, St: r.m.wstate, Op: i, Seg: n, Hdr: true})
+		}
+	}
+	r.steps = append(r.steps, st)
+	r.opDone("ret:"+s.Name, must)
+	return nil
 }
 
 var errInapplicable = fmt.Errorf("inapplicable")
